@@ -24,6 +24,10 @@ func initCommand(cmd *cobra.Command, args []string) (string, []string, error) {
 		colorsEnabled = true
 	}
 
+	if indent < 0 {
+		return "", nil, fmt.Errorf("indent must be a positive number, got %v", indent)
+	}
+
 	expression, args, err := processArgs(args)
 	if err != nil {
 		return "", nil, err
